@@ -18,7 +18,7 @@ var c12Routes = []string{"Sprint", "Sprintf", "Sprintf", "Fprint", "Fprintf", "H
 func genAbnormalCase(rt *rapid.T, noHook bool) *FmtCase {
 	fc := &fmtConfig{}
 	vc := &valConfig{maxDepth: 2}
-	k := rapid.IntRange(0, 11).Draw(rt, "abn")
+	k := rapid.IntRange(0, 13).Draw(rt, "abn")
 	if k == 0 && rapid.IntRange(0, 2).Draw(rt, "bigskip") > 0 {
 		k = 11 // (large outputs are slow: one case in 36)
 	}
@@ -45,6 +45,22 @@ func genAbnormalCase(rt *rapid.T, noHook bool) *FmtCase {
 		ops = append(ops, &Op{K: "Panic", Args: []*Val{vc.genPanicPayload(rt, 0, false)}})
 		return &FmtCase{Route: c12Routes[rapid.IntRange(0, len(c12Routes)-1).Draw(rt, "route")], Segs: []Seg{{Dir: &Directive{Verb: B("v")}}},
 			Args: []*Val{{K: "safefmt", Ops: ops}}}
+	case 12:
+		// a struct type this process has not printed before, with field names
+		// (type-keyed caches are process-wide state)
+		leaf := &Val{K: "ystringer", S: B("y"), I: int64(rapid.IntRange(0, 3).Draw(rt, "yn"))}
+		x := &Val{K: "dynstruct", S: B("g"), I: int64(rapid.IntRange(0, 1<<30).Draw(rt, "dynid")), Sub: []*Val{leaf}}
+		if rapid.Bool().Draw(rt, "inslice") {
+			x = &Val{K: "slice", Sub: []*Val{x, x}}
+		}
+		verb := []string{"+v", "#v", "v"}[rapid.IntRange(0, 2).Draw(rt, "dv")]
+		d := &Directive{Verb: B(verb[len(verb)-1:]), Flags: verb[:len(verb)-1]}
+		return &FmtCase{Route: c12Routes[rapid.IntRange(0, len(c12Routes)-1).Draw(rt, "route")], Segs: []Seg{{Dir: d}}, Args: []*Val{x}}
+	case 13:
+		// a very deeply nested operand whose innermost method yields
+		leaf := &Val{K: "ystringer", S: B("leaf"), I: int64(rapid.IntRange(0, 3).Draw(rt, "yn"))}
+		x := &Val{K: "deep", I: int64(rapid.IntRange(0, 29).Draw(rt, "deepn")), Sub: []*Val{leaf}}
+		return &FmtCase{Route: c12Routes[rapid.IntRange(0, len(c12Routes)-1).Draw(rt, "route")], Segs: []Seg{{Lit: B("d=")}, {Dir: &Directive{Verb: B("v")}}}, Args: []*Val{x}}
 	case 4, 5:
 		// a wrapper around a re-entrant program whose nested printer meets a
 		// contained or a propagating (nested) panic, or just prints
@@ -100,6 +116,12 @@ func TestC12Hist(t *testing.T) {
 func genC12Conc(rt *rapid.T) *C12Conc {
 	s := &C12Conc{Shared: rapid.IntRange(0, 3).Draw(rt, "shared") == 0}
 	n := rapid.IntRange(2, 16).Draw(rt, "goroutines")
+	var fresh *FmtCase
+	if rapid.IntRange(0, 2).Draw(rt, "fresh") == 0 {
+		x := &Val{K: "dynstruct", S: B("g"), I: int64(rapid.IntRange(0, 1<<30).Draw(rt, "dynid")), Sub: []*Val{{K: "str", S: B("x")}}}
+		verb := []string{"+v", "#v"}[rapid.IntRange(0, 1).Draw(rt, "dv")]
+		fresh = &FmtCase{Route: "Sprintf", Segs: []Seg{{Dir: &Directive{Verb: B("v"), Flags: verb[:1]}}}, Args: []*Val{x}}
+	}
 	for g := 0; g < n; g++ {
 		m := rapid.IntRange(1, 6).Draw(rt, "ncalls")
 		var list []*FmtCase
@@ -108,6 +130,15 @@ func genC12Conc(rt *rapid.T) *C12Conc {
 			// (no hook: it is process-global configuration, not part of the call)
 			list = append(list, genAbnormalCase(rt, true))
 			y = append(y, rapid.IntRange(0, 3).Draw(rt, "yield"))
+		}
+		if fresh != nil && (g < 2 || rapid.Bool().Draw(rt, "freshhere")) {
+			// the first use of a type, on several goroutines at once
+			at := 0
+			if g >= 2 {
+				at = rapid.IntRange(0, len(list)).Draw(rt, "freshat")
+			}
+			list = append(append(append([]*FmtCase(nil), list[:at]...), fresh), list[at:]...)
+			y = append(y, 0)
 		}
 		s.Lists = append(s.Lists, list)
 		s.Yields = append(s.Yields, y)
